@@ -106,12 +106,20 @@ def doOp (r : Run) : Sexp → Run
     emit { r with st := step H r.st (.foreignIface p (ver.nat?.getD 0) (abi.nat?.getD 0)) } "ok"
   | _ => emit r "bad-op"
 
+/-- `PackageUnit.imports` is a `BTreeSet<String>` (anchor: `Gen.importsOrdered`, C13): whatever the
+    order of the `import` lines, the dependencies are loaded in ascending name order -/
+def insName (x : Pkg) : List Pkg → List Pkg
+  | [] => [x]
+  | y :: ys => if x < y then x :: y :: ys else if x == y then y :: ys else y :: insName x ys
+
+def sortNames (l : List Pkg) : List Pkg := l.foldr insName []
+
 def runLine (l : String) : String :=
   let (id, rest) := splitTab l
   match Sexp.parse rest with
   | some (.list [.atom "history", .list (.atom "imports" :: imps), .list (.atom "ops" :: ops)]) =>
     let table : List (Pkg × List Pkg) := imps.filterMap fun
-      | .list (.atom p :: ds) => some (p, ds.filterMap Sexp.str?)
+      | .list (.atom p :: ds) => some (p, sortNames (ds.filterMap Sexp.str?))
       | _ => none
     let imports : Pkg → List Pkg := fun p => ((table.find? (·.1 == p)).map (·.2)).getD []
     let r := ops.foldl doOp { st := init imports }
